@@ -763,6 +763,8 @@ func (e *Exec) opReplay(order []int) string {
 				key = "block-" + stage + "-failed"
 			}
 			e.violate(key, fmt.Sprintf("a block with the pending transactions in order %v (which respects every dependency and anti-dependency) is refused by a node that never saw them (%s: %v)", order, stage, err))
+		} else if full && stage == "walk" && firstViolated(order, realEdges(e.snapGraph)) == nil {
+			e.violate("graph-admits-unreplayable-order", fmt.Sprintf("the pool graph of the implementation allows the order %v, but a block with that order is refused by a node that never saw the transactions (%v)", order, err))
 		}
 		return "reject"
 	}
